@@ -3,6 +3,8 @@
 package geom
 
 func init() {
+	vfHarnesses["C06_decode_nested"] = vfhC06DecodeNested
+	vfHarnesses["C08_geojson_nested"] = vfhC06DecodeNested
 	vfHarnesses["C06_marshal"] = vfhC06Marshal
 	vfHarnesses["C06_roundtrip"] = vfhC06RoundTrip
 	vfHarnesses["C06_roundtrip_collection"] = vfhC06RoundTripCollection
@@ -244,5 +246,59 @@ func vfhC06RoundTripCollection() {
 	want := vfDropM(g)
 	vfAssert(h.CoordinatesType() == want.CoordinatesType(), "Z kept (the document contains a position), M dropped")
 	vfAssert(vfGeomBits(h, want), "same structure, XY and Z bit-identical")
+	vfReach("end")
+}
+
+// The decoder on nested documents built from a grammar: every ring / member has
+// its own symbolic position length (0..4). No panic; an error iff some position
+// has fewer than 2 elements; otherwise 3D iff every position of the whole
+// document has at least 3 elements.
+func vfhC06DecodeNested() {
+	nums := []string{"1", "2", "3", "4"}
+	pos := func(n int, x string) string {
+		s := "["
+		for i := 0; i < n; i++ {
+			if i > 0 {
+				s += ","
+			}
+			if i == 0 {
+				s += x
+			} else {
+				s += nums[i]
+			}
+		}
+		return s + "]"
+	}
+	ring := func(n int) string { // a closed ring: the X ordinates make it a triangle
+		return "[" + pos(n, "0") + "," + pos(n, "5") + "," + pos(n, "9") + "," + pos(n, "0") + "]"
+	}
+	n1, n2 := vfInt("n1", 0, 4), vfInt("n2", 0, 4)
+	var doc string
+	kind := vfInt("kind", 0, 4)
+	switch kind {
+	case 0:
+		doc = `{"type":"Polygon","coordinates":[` + ring(n1) + `,` + ring(n2) + `]}`
+	case 1:
+		doc = `{"type":"MultiLineString","coordinates":[[` + pos(n1, "0") + `,` + pos(n1, "1") + `],[` + pos(n2, "2") + `,` + pos(n2, "3") + `]]}`
+	case 2:
+		doc = `{"type":"MultiPolygon","coordinates":[[` + ring(n1) + `],[` + ring(n2) + `]]}`
+	case 3:
+		doc = `{"type":"GeometryCollection","geometries":[{"type":"LineString","coordinates":[` + pos(n1, "0") + `,` + pos(n1, "1") + `]},{"type":"MultiPoint","coordinates":[` + pos(n2, "2") + `]}]}`
+	default:
+		doc = `{"type":"MultiPoint","coordinates":[` + pos(n1, "0") + `,` + pos(n2, "1") + `]}`
+	}
+	g, err := UnmarshalGeoJSON([]byte(doc), NoValidate{})
+	bad := n1 < 2 || n2 < 2
+	vfAssert((err != nil) == bad, "error iff some position is too short")
+	if err == nil {
+		want3D := n1 >= 3 && n2 >= 3
+		vfAssert(g.CoordinatesType().Is3D() == want3D, "3D iff every position of the document has at least 3 elements")
+		vfAssert(!g.CoordinatesType().IsMeasured(), "never measured")
+		vfAssert(g.Validate() == nil || kind == 0 || kind == 2, "structure is intact")
+		_ = g.AsText()
+		vfReach("decoded")
+	} else {
+		vfReach("rejected")
+	}
 	vfReach("end")
 }
